@@ -12,20 +12,28 @@ use std::sync::Arc;
 pub const U: u8 = 0; // requesting test module            /a/t_u.py
 pub const C1: u8 = 1; // nearest conftest                  /a/conftest.py
 pub const C0: u8 = 2; // root conftest                     /conftest.py
-pub const S: u8 = 3; // sibling conftest (never visible)   /b/conftest.py
+pub const S: u8 = 3; // sibling conftest (never visible)   /bb/conftest.py
 pub const M: u8 = 4; // module next to C1 (visible only if a conftest imports it)  /a/m.py
-pub const T2: u8 = 5; // another test module (never visible from U)  /b/t_o.py
-pub const P: u8 = 6; // workspace plugin (pytest11 entry point)      /p/p.py
+pub const T2: u8 = 5; // another test module (never visible from U)  /bb/t_o.py
+pub const P: u8 = 6; // workspace plugin (pytest11 entry point)      /p/pp.py
 pub const V: u8 = 7; // third-party                                   /site-packages/v.py
 pub const NFILES: usize = 8;
 
 macro_rules! rooted { ($s:literal) => { concat!(env!("PLSV_ROOT"), $s) }; }
 pub const PATHS: [&str; NFILES] = [
-    rooted!("/a/t_u.py"), rooted!("/a/conftest.py"), rooted!("/conftest.py"), rooted!("/b/conftest.py"),
-    rooted!("/a/m.py"), rooted!("/b/t_o.py"), rooted!("/p/p.py"), rooted!("/site-packages/v.py"),
+    rooted!("/a/t_u.py"), rooted!("/a/conftest.py"), rooted!("/conftest.py"), rooted!("/bb/conftest.py"),
+    rooted!("/a/m.py"), rooted!("/bb/t_o.py"), rooted!("/p/pp.py"), rooted!("/site-packages/v.py"),
 ];
 pub const ROOT: &str = env!("PLSV_ROOT");
 pub fn path(f: u8) -> &'static str { PATHS[f as usize] }
+/// path lengths are pairwise distinct (9,14,12,15,7,10,8,20 + root), so a path's length identifies the file
+/// without a (solver-expensive) component-wise Path comparison
+pub fn file_of(p: &Path) -> u8 {
+    let n = p.as_os_str().len();
+    let mut i = 0u8;
+    while (i as usize) < NFILES { if PATHS[i as usize].len() == n { return i; } i += 1; }
+    255
+}
 pub fn is_conftest(f: u8) -> bool { f == C1 || f == C0 || f == S }
 /// directory level of a file: 0 = root, 1 = /a, 2 = /b, 3 = elsewhere
 pub fn dir_of(f: u8) -> u8 { match f { U | C1 | M => 1, C0 => 0, S | T2 => 2, _ => 3 } }
@@ -46,6 +54,10 @@ pub struct TestS {
     pub file: u8,
     pub line: usize,
     pub params: Vec<&'static str>,
+    /// `@pytest.mark.usefixtures("NAME")` on line-2
+    pub usefix: Option<&'static str>,
+    /// `@pytest.mark.parametrize("NAME", [1], indirect=True)` on line-1
+    pub indirect: Option<&'static str>,
 }
 #[derive(Clone, Copy, PartialEq)]
 pub struct Imp {
@@ -64,21 +76,26 @@ pub struct World {
     pub c0_present: bool,
     pub imp_c1: Imp,
     pub imp_c0: Imp,
+    /// `pytestmark = pytest.mark.usefixtures("NAME")` on line 2 of U
+    pub pytestmark_u: Option<&'static str>,
+    /// direct builder: put the generated text into file_cache (position queries read it); else empty text
+    pub with_text: bool,
 }
 
 impl World {
     pub fn new(order: &[u8]) -> World {
         World { order: order.to_vec(), defs: Vec::with_capacity(8), tests: Vec::with_capacity(4),
                 c1_present: order.contains(&C1), c0_present: order.contains(&C0),
-                imp_c1: Imp { on: false, kind: 0 }, imp_c0: Imp { on: false, kind: 0 } }
+                imp_c1: Imp { on: false, kind: 0 }, imp_c0: Imp { on: false, kind: 0 }, pytestmark_u: None, with_text: false }
     }
     pub fn def(&mut self, file: u8, name: &'static str, line: usize) -> usize {
         self.defs.push(DefS { file, name, line, scope: FixtureScope::Function, autouse: false, deps: Vec::new(), multiline: false });
         self.defs.len() - 1
     }
     pub fn test(&mut self, file: u8, line: usize, params: &[&'static str]) {
-        self.tests.push(TestS { file, line, params: params.to_vec() });
+        self.tests.push(TestS { file, line, params: params.to_vec(), usefix: None, indirect: None });
     }
+    pub fn test_first_line(t: &TestS) -> usize { if t.usefix.is_some() || t.indirect.is_some() { t.line - 2 } else { t.line } }
     pub fn has_file(&self, f: u8) -> bool { self.order.contains(&f) }
     /// definitions of file f in registration (= line) order. No sorting on symbolic lines (that would
     /// make the vector layout symbolic): `layout_ok` requires declaration order == line order per file.
@@ -104,7 +121,7 @@ impl World {
                 prev_end = Self::def_last_line(d);
             }
             for t in self.tests.iter().filter(|t| t.file == f) {
-                if t.line <= prev_end { return false; }
+                if t.line < 3 || Self::test_first_line(t) <= prev_end { return false; }
                 prev_end = t.line;
             }
         }
@@ -127,19 +144,33 @@ pub fn test_param_span(t: &TestS, k: usize) -> (usize, usize, usize) {
     (t.line, col, col + t.params[k].len())
 }
 
+fn cat(parts: &[&str]) -> String {
+    let mut n = 0; for p in parts { n += p.len(); }
+    let mut s = String::with_capacity(n + 1);
+    for p in parts { s.push_str(p); }
+    s
+}
+fn join(items: &[&'static str]) -> String {
+    let mut s = String::with_capacity(16);
+    for (i, p) in items.iter().enumerate() { if i > 0 { s.push_str(", "); } s.push_str(p); }
+    s
+}
 pub fn def_line_text(d: &DefS) -> Vec<String> {
-    let params = d.deps.join(", ");
+    let params = join(&d.deps);
     if d.multiline {
-        vec![format!("def {}(", d.name), format!("    {}", params), "): return 1".to_string()]
+        vec![cat(&["def ", d.name, "("]), cat(&["    ", &params]), "): return 1".to_string()]
     } else {
-        vec![format!("def {}({}): return 1", d.name, params)]
+        vec![cat(&["def ", d.name, "(", &params, "): return 1"])]
     }
 }
 pub fn decorator_text(d: &DefS) -> String {
-    let mut args: Vec<String> = Vec::new();
-    if d.scope != FixtureScope::Function { args.push(format!("scope=\"{}\"", d.scope.as_str())); }
-    if d.autouse { args.push("autouse=True".to_string()); }
-    if args.is_empty() { "@pytest.fixture".to_string() } else { format!("@pytest.fixture({})", args.join(", ")) }
+    let sc = d.scope != FixtureScope::Function;
+    match (sc, d.autouse) {
+        (false, false) => "@pytest.fixture".to_string(),
+        (true, false) => cat(&["@pytest.fixture(scope=\"", d.scope.as_str(), "\")"]),
+        (false, true) => "@pytest.fixture(autouse=True)".to_string(),
+        (true, true) => cat(&["@pytest.fixture(scope=\"", d.scope.as_str(), "\", autouse=True)"]),
+    }
 }
 pub fn import_text(w: &World, f: u8) -> Option<String> {
     let imp = if f == C1 { w.imp_c1 } else if f == C0 { w.imp_c0 } else { return None };
@@ -153,22 +184,33 @@ pub fn import_text(w: &World, f: u8) -> Option<String> {
         (_, _) => "pytest_plugins = [\"a.m\"]".to_string(),
     })
 }
+pub const USEFIX_COL: usize = 26; // `@pytest.mark.usefixtures("` / `@pytest.mark.parametrize("`
+pub const PYTESTMARK_COL: usize = 38; // `pytestmark = pytest.mark.usefixtures("`
 /// The Python source of file f.
 pub fn file_text(w: &World, f: u8) -> String {
-    let mut lines: Vec<String> = vec!["import pytest".to_string()];
-    lines.push(import_text(w, f).unwrap_or_else(|| "#".to_string()));
-    let mut put = |lines: &mut Vec<String>, at: usize, s: String| {
+    let mut lines: Vec<String> = Vec::with_capacity(16);
+    lines.push("import pytest".to_string());
+    let l2 = match import_text(w, f) {
+        Some(t) => t,
+        None => match (f, w.pytestmark_u) { (U, Some(n)) => cat(&["pytestmark = pytest.mark.usefixtures(\"", n, "\")"]), _ => "#".to_string() },
+    };
+    lines.push(l2);
+    fn put(lines: &mut Vec<String>, at: usize, s: String) {
         while lines.len() < at { lines.push("#".to_string()); }
         lines[at - 1] = s;
-    };
+    }
     for d in w.defs.iter().filter(|d| d.file == f) {
         put(&mut lines, d.line - 1, decorator_text(d));
         for (k, t) in def_line_text(d).into_iter().enumerate() { put(&mut lines, d.line + k, t); }
     }
     for t in w.tests.iter().filter(|t| t.file == f) {
-        put(&mut lines, t.line, format!("def test_x({}): pass", t.params.join(", ")));
+        if let Some(n) = t.usefix { put(&mut lines, t.line - 2, cat(&["@pytest.mark.usefixtures(\"", n, "\")"])); }
+        if let Some(n) = t.indirect { put(&mut lines, t.line - 1, cat(&["@pytest.mark.parametrize(\"", n, "\", [1], indirect=True)"])); }
+        put(&mut lines, t.line, cat(&["def test_x(", &join(&t.params), "): pass"]));
     }
-    lines.join("\n") + "\n"
+    let mut out = String::with_capacity(256);
+    for l in &lines { out.push_str(l); out.push('\n'); }
+    out
 }
 
 pub fn mk_def(d: &DefS) -> FixtureDefinition {
@@ -183,7 +225,7 @@ pub fn mk_def(d: &DefS) -> FixtureDefinition {
         return_type: None,
         is_third_party: d.file == V,
         is_plugin: d.file == P,
-        dependencies: d.deps.iter().map(|s| s.to_string()).collect(),
+        dependencies: d.deps.iter().filter(|s| **s != "request" && **s != "self").map(|s| s.to_string()).collect(),
         scope: d.scope,
         yield_line: None,
         autouse: d.autouse,
@@ -197,6 +239,9 @@ pub fn mk_use(file: u8, name: &str, line: usize, s: usize, e: usize) -> FixtureU
 /// a file in statement (line) order; a fixture's parameters in signature order.
 pub fn usages_of_file(w: &World, f: u8) -> Vec<FixtureUsage> {
     let mut out: Vec<FixtureUsage> = Vec::with_capacity(8);
+    if f == U && import_text(w, f).is_none() {
+        if let Some(n) = w.pytestmark_u { out.push(mk_use(f, n, 2, PYTESTMARK_COL, PYTESTMARK_COL + n.len())); }
+    }
     for d in w.defs.iter().filter(|d| d.file == f) {
         let v = &mut out;
         for k in 0..d.deps.len() {
@@ -207,6 +252,8 @@ pub fn usages_of_file(w: &World, f: u8) -> Vec<FixtureUsage> {
     }
     for t in w.tests.iter().filter(|t| t.file == f) {
         let v = &mut out;
+        if let Some(n) = t.usefix { v.push(mk_use(f, n, t.line - 2, USEFIX_COL, USEFIX_COL + n.len())); }
+        if let Some(n) = t.indirect { v.push(mk_use(f, n, t.line - 1, USEFIX_COL, USEFIX_COL + n.len())); }
         for k in 0..t.params.len() {
             if t.params[k] == "self" { continue; }
             let (l, s, e) = test_param_span(t, k);
@@ -257,7 +304,10 @@ pub fn build_direct(w: &World, fill: Fill, keys: Option<&[&'static str]>) -> Fix
     }
     if fill.file_cache {
         // membership is what the resolver consults ("conftest exists"); text is only read by position queries
-        for &f in &w.order { db.file_cache.insert(PathBuf::from(path(f)), Arc::new(String::new())); }
+        for &f in &w.order {
+            let text = if w.with_text { file_text(w, f) } else { String::new() };
+            db.file_cache.insert(PathBuf::from(path(f)), Arc::new(text));
+        }
     }
     if fill.usages {
         for &f in &w.order {
@@ -287,7 +337,7 @@ pub fn build_direct(w: &World, fill: Fill, keys: Option<&[&'static str]>) -> Fix
 pub fn build_native(w: &World) -> FixtureDatabase {
     assert!(!ROOT.is_empty(), "native build needs PLSV_ROOT");
     let _ = std::fs::remove_dir_all(ROOT);
-    for d in ["/a", "/b", "/p", "/site-packages"] { std::fs::create_dir_all(format!("{}{}", ROOT, d)).unwrap(); }
+    for d in ["/a", "/bb", "/p", "/site-packages"] { std::fs::create_dir_all(format!("{}{}", ROOT, d)).unwrap(); }
     let db = FixtureDatabase::new();
     if w.has_file(P) { db.plugin_fixture_files.insert(PathBuf::from(path(P)), ()); }
     for &f in &w.order { std::fs::write(path(f), file_text(w, f)).unwrap(); }
